@@ -550,12 +550,30 @@ EVAL = {'eui': eval_eui, 'eui-inv': eval_eui_inv, 'eui-lit': eval_eui_lit, 'eui-
         'eui-dc': eval_eui_dc, 'hp': eval_hp, 'url': eval_url}
 
 
+def TWIN_FUNCS():
+    from oslo_utils import netutils as nu
+    return {'parse_host_port': lambda v: nu.parse_host_port(v), 'urlsplit': lambda v: tuple(nu.urlsplit(v)),
+            'urlsplit_params': lambda v: nu.urlsplit(v).params(), 'escape_ipv6': lambda v: nu.escape_ipv6(v),
+            'get_ipv6_addr_by_EUI64': lambda v: str(nu.get_ipv6_addr_by_EUI64('2001:db8::', v))}
+
+
+# (urlsplit goes through urllib.parse.urlsplit, which memoises by the url object itself: the standard library's business)
+TWIN_TEXT_FUNCS = ['parse_host_port', 'escape_ipv6', 'get_ipv6_addr_by_EUI64']
+TWIN_TEXTS = ['[FE80::1]:80', 'Host.Example:8080', 'HTTP://Ex.Com/Path?Q=1&R=2', 'fe80::AbCd', 'AA:bb:CC:dd:EE:ff',
+              'Example.COM', 'rabbit://User:Pw@Host:5672/VHost?A=b', '00:16:3E:33:44:55']
+TWIN_NUM_FUNCS = ()
+TWIN_NUMBERS = ()
+
+
 def _evaluate_plain(ctx, case):
+    if case.get('kind') == 'twins':
+        from vlib import twins as _tw
+        return _tw.evaluate_case(ctx, case, TWIN_FUNCS())
     EVAL[case['kind']](ctx, case)
 
 
 from vlib import envmodes  # noqa: E402
-evaluate = envmodes.with_modes(_evaluate_plain, lazy=lambda case: True, warn=lambda case: True)
+evaluate = envmodes.with_modes(_evaluate_plain, lazy=lambda case: True, warn=lambda case: True, digits=lambda case: True)
 
 
 # ----------------------------------------------------------------------
@@ -892,6 +910,12 @@ def random_url_case(rng, i):
 # run
 # ----------------------------------------------------------------------
 def run(ctx):
+    # ---- the same characters / the same number handed over as other objects, in several orders (vlib/twins.py)
+    from vlib import twins as _tw
+    for _i, _case in enumerate(_tw.make_cases(ctx.rng('twins'), ctx.pick(160, 8000), TWIN_TEXT_FUNCS, TWIN_TEXTS,
+                                              TWIN_NUM_FUNCS, TWIN_NUMBERS)):
+        if ctx.mine(_i):
+            evaluate(ctx, _case)
     idx = 0
 
     def emit(case, klass=None):
